@@ -15,61 +15,61 @@ P = {
    text="Every builder front end x cache geometry x key/value shape explored is built, opened and enumerated through every streaming API and compared as a sequence with an ordered-map model; all 2^15 subsets of the 15-key universe over {a,b}^<=3 x 6 value patterns x 4 geometries and all value assignments over {0,1,256} on the 7-key universe are enumerated completely, the rest is sampled by proptest (fan-out 0..256, u64 boundary values, long keys, 10^5..2*10^6-key recipes).",
    note="Trusted: the model (sorted Vec/BTreeMap), the harness build helper; sampled beyond the exhaustive scopes; keys > 70 kB and > 2e6 keys not explored.", ref="5/C01"),
  "C02": dict(level="exploration", tech="proptest + exhaustive probes against an ordered-map model (present and absent keys)",
-   text="For each built FST every key, every proper prefix, one-byte extensions, single-byte substitutions at every position (all 255 in the small scopes, all 256 bytes at forced fan-out nodes) and random strings are probed through Map::get/contains_key, Set::contains and raw get/contains_key and compared with model membership.",
+   text="For each built FST every key, every proper prefix, one-byte extensions, single-byte substitutions at every position (all 255 in the small scopes, all 256 bytes at forced fan-out nodes) and random strings are probed through Map::get/contains_key, Set::contains and raw get/contains_key and compared with model membership; the same on files of 64 KiB..2 MiB and on one file beyond 16 MiB (address deltas of 2, 3 and 4 bytes on the lookup path).",
    note="Trusted: the model; FST space sampled as in C01.", ref="5/C02"),
  "C03": dict(level="exploration", tech="proptest + exhaustive bound grids against a model range filter",
-   text="Histories of 0..4 bound-setting calls (ge/gt/le/lt, last of each kind wins) with bound keys constructed from keys, prefixes, +/- one byte, divergent and empty strings are run through Map/Set/Fst::range and compared as sequences with the model filter; subsets of the 15-key universe x all (kind,key,kind,key) combinations over a 341-string bound universe are enumerated.",
+   text="Histories of 0..4 bound-setting calls (ge/gt/le/lt, last of each kind wins) with bound keys constructed from keys, prefixes, +/- one byte, divergent and empty strings are run through Map/Set/Fst::range and compared as sequences with the model filter; subsets of the 15-key universe x all (kind,key,kind,key) combinations over a 341-string bound universe are enumerated; sampled windows with present/absent/over-long bound keys on files beyond 64 KiB.",
    note="Trusted: the model filter; bound keys longer than longest key + 2 only sampled.", ref="5/C03"),
  "C04": dict(level="exploration", tech="proptest + enumeration of small DFAs with every sound hint assignment; independent fold of the automaton over model keys; metamorphic hint-weakening",
    text="Generated contract-abiding automata (all DFAs with <= 2 states over 2 byte classes with every sound can_match assignment, random DFAs up to 8 states with randomly weakened hints, shipped automata and compositions, Levenshtein, regex-automata DFAs) are searched with bounds and compared with an independent per-key fold through the public trait, including the reported state for search_with_state, and with the same automaton with all hints weakened.",
    note="Trusted: the per-key fold and reachability computation in the harness; automata with unbounded state spaces not generated.", ref="5/C04"),
  "C05": dict(level="exploration", tech="exhaustive k<=3 tuples over a 4-key universe + proptest k<=6 against set-theoretic definitions on models",
-   text="All tuples (k<=3) of subsets of {eps,a,ab,b} with tie/differing values, and random tuples up to k=6 of streams of mixed kinds (FST, range, search, user streamer) are run through union/intersection/difference/symmetric_difference of raw, map and set OpBuilders and compared with the set-theoretic definition (keys as a sequence, IndexedValue lists as sets) and is_disjoint/is_subset/is_superset with BTreeSet relations.",
+   text="All tuples (k<=3) of subsets of {eps,a,ab,b} with tie/differing values, and random tuples up to k=6 of streams of mixed kinds (FST, range, search, user streamer) are run through union/intersection/difference/symmetric_difference of raw, map and set OpBuilders and compared with the set-theoretic definition (keys as a sequence, IndexedValue lists as sets) and is_disjoint/is_subset/is_superset with BTreeSet relations; a further family uses 7..20 streams, keys longer than 64 bytes with long shared prefixes and values at 2^32 / u64::MAX.",
    note="Trusted: BTreeMap/BTreeSet definitions; k = 0 for difference is outside the quantifier.", ref="5/C05"),
  "C06": dict(level="exploration", tech="exhaustive call histories <= 5 over a 4-key universe + proptest histories against a reference interpreter",
    text="Every sequence of <= 5 inserts over {eps,a,ab,b} for map/set/raw builders, random histories up to 200 calls with 0-50% invalid calls, and bulk front ends with the first bad item at every position are interpreted step by step against a reference interpreter: result variant and payload of every call, bytes_written unchanged by rejected calls, final content and len.",
    note="Trusted: the reference interpreter (last accepted key); mixing add and insert on one raw builder is outside the statement.", ref="5/C06"),
  "C07": dict(level="exploration", tech="proptest + exhaustive scripted-sink schedules; differential against the in-memory build",
-   text="Scripted io::Write sinks (every fixed cap 1..16, every position of one short write, every position of one Interrupted, random scripts, BufWriter, pre-filled Vec, Cursor) receive the build; the bytes received must equal the in-memory build, open, verify and answer queries, and bytes_written must equal the sink's own count after every call.",
+   text="Scripted io::Write sinks (every fixed cap 1..16, every position of one short write, every position of one Interrupted, random scripts, BufWriter, pre-filled Vec, Cursor) receive the build; the bytes received must equal the in-memory build, open, verify and answer queries, and bytes_written must equal the sink's own count after every call — also right after a call that failed half-way through a buffer — and files beyond 64 KiB are streamed through sinks accepting 1..7 bytes per call.",
    note="Trusted: the scripted sink; sinks that lose accepted bytes are outside io::Write's contract.", ref="5/C07"),
  "C08": dict(level="exploration", tech="differential against a bitwise CRC-32C + exhaustive single-byte corruption of small FSTs + proptest bursts + libFuzzer (thorough)",
-   text="The implementation's masked checksum is compared with an independent bitwise CRC-32C for every length 0..700 (4096 thorough) x contents x chunkings around 16-byte blocks; every built FST's trailer is compared with the reference; every byte x every replacement value of small FSTs (sampled for larger) and 2-4 byte bursts must fail to open or fail verify().",
+   text="The implementation's masked checksum is compared with an independent bitwise CRC-32C for every length 0..700 (4096 thorough) x contents x chunkings around 16-byte blocks; every built FST's trailer is compared with the reference; every byte x every replacement value of small FSTs (sampled for larger) and 2-4 byte bursts must fail to open or fail verify(); 13 special values are written over the checksum field; every generated sequence is also streamed through a short-writing sink (chunking clause through the builder); CRC inputs up to 1 MiB at several slice alignments; sampled corruption of 64 KiB..17 MiB files.",
    note="Trusted: the bitwise CRC (checked against published vectors); multi-burst corruption beyond 4 bytes is not a CRC guarantee and not claimed.", ref="5/C08"),
  "C09": dict(level="exploration", tech="independent format decoder (written from the format description) applied to every generated build; tiling + decode-to-model oracle",
-   text="Every generated build (C01's space incl. files needing 2-3 byte deltas; 4-byte deltas in thorough) is parsed by an independent decoder that checks header, footer, node layouts, in-bounds earlier targets, exact tiling of the body by node extents, index tables, and decodes the map without the crate's reader, comparing with the model.",
+   text="Every generated build (C01's space incl. files needing 2-3 byte deltas and one file beyond 16 MiB with 4-byte deltas) is parsed by an independent decoder that checks header, footer, node layouts, in-bounds earlier targets, exact tiling of the body by node extents, index tables, and decodes the map without the crate's reader, comparing with the model.",
    note="Trusted: the harness decoder (cross-validated: must decode every golden file and every pinned build) and the frozen 256-entry input-rank table.", ref="5/C09, App. A"),
  "C10": dict(level="exploration", tech="independent reference encoder (v1/v2/v3) + golden files + header sweep; query suite against the model",
-   text="Maps from the shared space are encoded by an independent encoder in versions 1, 2 and 3 under several writer policies, opened through Vec, &[u8], Box, Arc, Cow and Mmap containers and queried (stream, get, range, search, set operations, len, verify) against the model; a sweep over version values x lengths 0..40 checks the documented error for each input.",
+   text="Maps from the shared space are encoded by an independent encoder in versions 1, 2 and 3 under several writer policies, opened through Vec, &[u8], Box, Arc, Cow and Mmap containers and queried (stream, get, range, search, set operations, len, verify) against the model; a sweep over version values x lengths 0..40 checks the documented error for each input; old-version files of 70 KiB..600 KiB get stream, sampled lookups and sampled ranges.",
    note="Trusted: the reference encoder (v1/v2 differ from its cross-validated v3 mode only by index/checksum); no historical crate release is available offline.", ref="5/C10, App. B"),
  "C11": dict(level="fault_enumeration", tech="exhaustive single-fault injection at every write call and the flush x 7 failure kinds, under catch_unwind",
-   text="For each explored key sequence the number of write calls W is measured, then every call index 0..W and the final flush is made the single failing call for each failure kind (5 ErrorKinds, explicit WriteZero, Ok(0)); the faulted builder call must return Err(Io) of that kind, earlier calls Ok, no panic, and success only if the sink holds the reference bytes and was flushed.",
+   text="For each explored key sequence the number of write calls W is measured, then every call index 0..W and the final flush is made the single failing call for each failure kind (5 ErrorKinds, explicit WriteZero, Ok(0)); the faulted builder call must return Err(Io) of that kind, earlier calls Ok, no panic, and success only if the sink holds the reference bytes and was flushed after the last write (the fault-free run of every sequence exercises that clause).",
    note="Trusted: the fault-injecting sink; behaviour of later calls on a builder that already failed is not part of the statement.", ref="5/C11"),
  "C12": dict(level="exploration", tech="proptest against an independent minimal-DFA construction (hash-consed trie) under an observed no-eviction premise; corpus sharing ratio",
-   text="For builds in which the eviction hook counted zero, sets must be isomorphic to the independently computed minimal acyclic DFA and maps must contain no two nodes with the same signature; for every build emitted nodes <= trie nodes; on the shipped corpora realised sharing must exceed one half of the achievable.",
+   text="For builds in which the eviction hook counted zero, sets must be isomorphic to the independently computed minimal acyclic DFA and maps must contain no two nodes with the same signature; for every build emitted nodes <= trie nodes; on the shipped corpora realised sharing must exceed one half of the achievable; extra shapes: cross products (equivalent wide nodes), shared suffixes of 64..300 bytes, > 1 MiB files with few distinct nodes, large sets/maps under a roomy geometry.",
    note="Trusted: the harness trie/min-DFA code, the eviction hook; transducer-minimality (output placement) not claimed.", ref="5/C12"),
  "C13": dict(level="exploration", tech="metamorphic heap measurement with a counting global allocator in single-threaded probe children (N vs N/2)",
-   text="Key sequences with bounded fan-out and key length and unboundedly many distinct nodes are streamed to a discarding sink in a child process with a counting allocator; live heap at N/2 and peak up to N must agree within 10% + 512 KiB for several geometries, sets and maps.",
+   text="Key sequences with bounded fan-out and key length and unboundedly many distinct nodes are streamed to a discarding sink in a child process with a counting allocator; live heap at N/2 and peak up to the end of finish() must agree within 10% + 128 KiB (10% + 8 KiB for caches of <= 256 cells, where slow leaks show) for 17 configurations: fan-outs 2..40, key lengths 12..250, prefix-pair keys, increasing/hashed/decreasing values, three geometries.",
    note="Asymptotic claim checked at finitely many N (4e5 quick, up to 1e7 thorough); growth below 5% per doubling would pass.", ref="5/C13"),
  "C14": dict(level="exploration", tech="metamorphic heap measurement of traversals with a counting allocator (small N vs large N); zero-allocation assertion for open/get",
-   text="Peak extra heap during stream/range/search traversals and k-way set operations is measured at two FST sizes in probe children and must not grow with N; Fst::new on borrowed/mapped bytes, get, contains_key and len must perform zero allocations.",
+   text="Peak extra heap during stream/range/search traversals and k-way set operations is measured at two FST sizes in probe children and must not grow with N; operations: stream, range, search with Subsequence / StartsWith / DFAs with and without dead states / Levenshtein / regex DFA, search_with_state, the four set operations for k in {2,3,8} and a union of range and search streams; Fst::new on borrowed/mapped bytes, get, contains_key and len (also on an FST with fan-outs 256/24/12) must perform zero allocations.",
    note="Finitely many N; generous multiplicative + additive tolerance calibrated on the pinned tree.", ref="5/C14"),
  "C15": dict(level="exploration", tech="differential byte-equality across construction entry points, threads and child processes",
-   text="The same (type, sequence) is built through every entry point incl. extend_stream of unions of part-sets, memory vs Vec vs scripted sinks, repeated in-process, in 16 threads and in child processes regenerated from the seed; all outputs must be byte-identical.",
+   text="The same (type, sequence) is built through every entry point incl. extend_stream of unions of part-sets, memory vs Vec vs scripted sinks, with different buffer capacities, with the builder inspected between inserts, from iterators without size hint, on fresh threads, repeated in-process, in 16 threads and in child processes (one of them refused every allocation >= 256 KiB: it may die but not produce other bytes); one sequence exceeds 10^5 keys; all outputs must be byte-identical.",
    note="Other platforms/endianness out of reach.", ref="5/C15"),
  "C16": dict(level="exploration", tech="exhaustive + proptest inverse-of-model oracle on monotone maps",
-   text="Maps with strictly increasing values (all subsets of the 15-key universe x gap patterns; random shapes) are queried with every stored value, +/-1, 0, u64::MAX and random values; get_key/get_key_into must equal the model inverse.",
+   text="Maps with strictly increasing values (all subsets of the 15-key universe x gap patterns; random shapes) are queried with every stored value, +/-1, 0, u64::MAX and random values; get_key/get_key_into (on a junk-prefilled buffer) must equal the model inverse; maps of up to 4000 keys with 256-way nodes and values above 2^63 included.",
    note="Non-monotone maps never generated (documented unspecified).", ref="5/C16"),
  "C17": dict(level="exploration", tech="exhaustive (q,d,k) over an 8-character multi-byte alphabet against a DP edit distance; proptest beyond",
-   text="All queries and keys of <= 3 characters over {a,e-acute,e-circumflex,2 snowman-block symbols,2 emoji,musical symbol} x d in 0..2 are decided by the automaton and by an O(|q||k|) DP over chars; Set::search results, dead-state soundness and state limits (via the hook) are checked too.",
+   text="All queries and keys of <= 3 characters over {a,e-acute,e-circumflex,2 snowman-block symbols,2 emoji,musical symbol} x d in 0..2 are decided by the automaton and by an O(|q||k|) DP over chars; Set::search results, dead-state soundness and state limits (via the hook) are checked too, as are all |q|,|k| <= 2 over 16 code points at the UTF-8 encoding boundaries, queries of up to 26 characters with d <= 4, and agreement of new() with the default limit of 10 000 states.",
    note="Trusted: the DP edit distance; |k| <= 3 (4 thorough) exhaustive, random beyond.", ref="5/C17"),
  "C18": dict(level="exploration", tech="enumeration/proptest of automaton expression trees against an explicit reference DFA compiler (products, latch, complement) up to the pumping bound",
-   text="Expression trees to depth 3 over Str, Subsequence, AlwaysMatch and every small component DFA with every sound hint assignment are built with the crate's combinators and compared state-by-state with a reference DFA: acceptance of every string up to |Q|+1 over class representatives, can_match=false only if no accepting continuation, will_always_match=true only if all continuations accept.",
+   text="Expression trees to depth 3 over Str, Subsequence, AlwaysMatch and every small component DFA with every sound hint assignment are built with the crate's combinators and compared state-by-state with a reference DFA: acceptance of every string up to |Q|+1 over class representatives, can_match=false only if no accepting continuation, will_always_match=true only if all continuations accept; random trees to depth 4, patterns of 256..300 bytes, and the bytes 0x00/0x7f/0x80/0xff always part of the alphabet.",
    note="Trusted: the reference compiler in the harness.", ref="5/C18"),
  "C19": dict(level="exploration", tech="differential CLI runs over batch/fd-limit/thread/schedule-seed configurations against a model fold; byte-equality across configurations",
-   text="The fst binary (hooks on: seeded delays at channel points, batch trace) is run on generated line/CSV multisets over batch sizes, fd limits, thread counts, merge modes and schedule seeds; output must exist, verify, equal the model fold and be byte-identical across configurations, and equal a sorted build when keys are unique.",
+   text="The fst binary (hooks on: seeded delays at channel points, batch trace) is run on generated line/CSV multisets over batch sizes, fd limits, thread counts, merge modes and schedule seeds; output must exist, verify, equal the model fold and be byte-identical across configurations, and equal a sorted build when keys are unique; inputs include CRLF files, files without final newline, values beyond 2^32 and up to ~180 rows (hundreds of batches, several generations); a run that does not finish within two minutes is reported as a hang.",
    note="Interleavings are perturbed, not enumerated; a bug needing one specific interleaving may be missed.", ref="5/C19"),
  "C20": dict(level="exploration", tech="exhaustive header/footer grid + proptest random/truncated/mutated inputs under catch_unwind + libFuzzer/ASan (thorough); auxiliary -F unsafe_code lint",
-   text="Every length 0..64 x boundary version/root/len values x filler, random byte strings, every truncation and single-byte mutation of valid FSTs are opened through Fst/Map/Set::new and, when they open, the metadata accessors and verify() are called, all under catch_unwind; the library is additionally compiled with -F unsafe_code as the property prescribes.",
+   text="Every length 0..64 x boundary version/root/len values x filler, random byte strings, every truncation and single-byte mutation of valid FSTs are opened through Fst/Map/Set::new and, when they open, the metadata accessors and verify() are called, all under catch_unwind; inputs of 64 KiB..16 MiB with plausible headers/footers included; the library is additionally compiled with -F unsafe_code as the property prescribes.",
    note="root()/get/stream on malformed-but-openable input may panic by documentation and are not asserted.", ref="5/C20"),
 }
 
